@@ -36,10 +36,14 @@ type solveOpts struct {
 	seed      int
 }
 
-func (o *Obligation) script(seed int) string {
+func (o *Obligation) script(seed int) string { return o.scriptR(seed, false) }
+
+// scriptR: relaxed=true drops every assumption that contains a quantifier. Dropping assumptions
+// only weakens the context, so "unsat" of the relaxed query still proves the obligation.
+func (o *Obligation) scriptR(seed int, relaxed bool) string {
 	var b bytes.Buffer
 	for i := 0; i < o.Prefix; i++ {
-		if o.Cover && strings.Contains(o.Script[i], "(forall ") {
+		if (o.Cover || relaxed) && strings.HasPrefix(o.Script[i], "(assert") && (strings.Contains(o.Script[i], "(forall ") || strings.Contains(o.Script[i], "(exists ")) {
 			continue // covers are decided modulo the quantified facts (relaxation)
 		}
 		b.WriteString(o.Script[i])
@@ -95,13 +99,45 @@ func discharge(o *Obligation, opt *solveOpts, idx int) {
 	if len(file) > 200 {
 		file = file[:200] + ".smt2"
 	}
-	os.WriteFile(file, []byte(o.script(opt.seed)), 0o644)
-	if !opt.keepFiles {
-		defer os.Remove(file)
-	}
+	full := o.script(opt.seed)
 	t0 := time.Now()
 	defer func() { o.Time = time.Since(t0).Seconds() }()
 	ctx := context.Background()
+	hasQ := false
+	for i := 0; i < o.Prefix; i++ {
+		if strings.HasPrefix(o.Script[i], "(assert") && strings.Contains(o.Script[i], "(forall ") {
+			hasQ = true
+			break
+		}
+	}
+	var relaxedSat string
+	if hasQ && !o.Cover {
+		rfile := file + ".relaxed.smt2"
+		os.WriteFile(rfile, []byte(o.scriptR(opt.seed, true)), 0o644)
+		v, out, _ := runSolver(ctx, solvers[0], rfile, opt.fast)
+		if !opt.keepFiles {
+			os.Remove(rfile)
+		}
+		if v == "unsat" {
+			o.Verdict, o.Solver, o.Raw = v, solvers[0].name+"(qf-relaxed)", out
+			return
+		}
+		if v == "sat" {
+			relaxedSat = out
+		}
+	}
+	defer func() {
+		// no definite answer on the full query: keep the candidate model of the relaxed one
+		if (o.Verdict == "unknown" || o.Verdict == "timeout") && relaxedSat != "" {
+			o.Raw = relaxedSat
+			o.Relaxed = true
+			o.Verdict = "sat-relaxed"
+		}
+	}()
+	os.WriteFile(file, []byte(full), 0o644)
+	if !opt.keepFiles {
+		defer os.Remove(file)
+	}
 	if !opt.allAgree {
 		v, out, _ := runSolver(ctx, solvers[0], file, opt.fast)
 		if v == "sat" || v == "unsat" {
@@ -249,4 +285,43 @@ func lastTerm(p string) string {
 	}
 	j := strings.LastIndexAny(p, " \t\n")
 	return p[j+1:]
+}
+
+// vacuous lists the cover obligations that indicate a vacuous proof: an unsatisfiable
+// precondition, or a function none of whose returns is reachable. A single dead return
+// (e.g. `if recv == nil` under the implicit non-nil receiver) is not a failure.
+func vacuous(obls []*Obligation) (bad []*Obligation, dead []*Obligation) {
+	type st struct {
+		rets, deadRets int
+		sample *Obligation
+	}
+	per := map[string]*st{}
+	for _, o := range obls {
+		if !o.Cover {
+			continue
+		}
+		if strings.Contains(o.ID, "/cover/requires") {
+			if o.Verdict == "unsat" {
+				bad = append(bad, o)
+			}
+			continue
+		}
+		s := per[o.Func]
+		if s == nil {
+			s = &st{}
+			per[o.Func] = s
+		}
+		s.rets++
+		if o.Verdict == "unsat" {
+			s.deadRets++
+			dead = append(dead, o)
+			s.sample = o
+		}
+	}
+	for _, s := range per {
+		if s.rets > 0 && s.rets == s.deadRets {
+			bad = append(bad, s.sample)
+		}
+	}
+	return
 }
